@@ -80,6 +80,17 @@ def wide_specs(tier):
                for k, w in enumerate([66, 130, 260])])
 
 
+def bushy_specs(tier):
+    """medium-sized forests that are neither a chain nor a flat list (40 - 300 nodes, fan-out and depth both growing, three
+    placement biases), then subtree moves / removals / recycling; validated with TraceLight.cfg"""
+    if tier == "quick":
+        return ([{"mix": "bushy", "seed": SEED * 10 + k, "events": 40, "cfg": "TraceLight"} for k in range(3)]
+                + [{"mix": "bushy", "seed": SEED * 10 + 3, "events": 40, "cfg": "TraceLight", "extra": ["--nodes", "120"]}])
+    return ([{"mix": "bushy", "seed": SEED * 10 + k, "events": 120, "cfg": "TraceLight"} for k in range(6)]
+            + [{"mix": "bushy", "seed": SEED * 10 + 6 + k, "events": 60, "cfg": "TraceLight", "extra": ["--nodes", str(n)]}
+               for k, n in enumerate([130, 180, 260, 300])])
+
+
 def boundary_specs(tier):
     extra = [{"mix": "boundary-full", "seed": (SEED * 100 + 50) // 2 * 2, "events": 0}, {"mix": "boundary-full", "seed": (SEED * 100 + 50) // 2 * 2 + 1, "events": 0},
              {"mix": "boundary-long", "seed": SEED * 100 + 51, "events": 0}]
@@ -254,6 +265,8 @@ def check_property(prop, tier):
             specs += deep_specs(tier)
         if prop in ("C01", "C03", "C04", "C09", "C10"):
             specs += wide_specs(tier)
+        if prop in ("C01", "C03", "C04", "C05", "C09", "C12"):
+            specs += bushy_specs(tier)
         if prop == "C16":
             # serde round trips with payload types that exercise more of serde's data model
             for i, sp in enumerate(specs):
